@@ -15,6 +15,7 @@ from . import replay
 from .evidence import Reporter, write_evidence
 from .tracecheck import state_at
 
+SYN = [p["name"] for p in PR.synthetic_family()]
 CORE = [p["name"] for p in PR.core_family()]
 EXTRA = [p["name"] for p in PR.extra_family()]
 
@@ -115,7 +116,7 @@ def plan(pid: str, tier: str, seed: int) -> dict:
     core = [PR.by_name(n) for n in CORE]
     extra = [PR.by_name(n) for n in EXTRA if n != "transientinf"]
     if pid == "C01":
-        progs = core + ([] if quick else extra)
+        progs = core + [PR.by_name(n) for n in (("before1", "after1", "siblingfail") if quick else SYN)] + ([] if quick else extra)
         return dict(
             progs=progs, props=["C01_SameOutcome", "C01_ExecBound", "C01_NothingStranded"],
             jobs=lambda refs: [
@@ -139,7 +140,7 @@ def plan(pid: str, tier: str, seed: int) -> dict:
                                     ("chain2", "diamond", "failbranch", "firstof", "cycle2")]),
         )
     if pid == "C02":
-        progs = core + extra
+        progs = core + extra + [PR.by_name(n) for n in SYN]
         nseed = 24 if quick else 400
         return dict(
             progs=progs, props=["C02_SameOutcome", "C02_StartOnce", "C02_NoReexec", "C02_ExecExact"],
@@ -166,7 +167,7 @@ def plan(pid: str, tier: str, seed: int) -> dict:
                                     ("diamond", "firstof", "quorum", "quorumfail", "quorumimpossible", "deep")]),
         )
     if pid == "C05":
-        progs = [p for p in core + extra if p["name"] != "stopped"] + \
+        progs = [p for p in core + extra if p["name"] != "stopped"] + [PR.by_name(n) for n in SYN] + \
                 [p for p in join_family() if p["name"] in ("firstofslow", "firstofallfail", "quorumimpossible", "mmfail", "deep")]
         nseed = 20 if quick else 300
         return dict(
@@ -182,7 +183,7 @@ def plan(pid: str, tier: str, seed: int) -> dict:
                                     ("quorumfail", "firstof", "quorumimpossible", "cycle2")]),
         )
     if pid == "C06":
-        progs = core + extra
+        progs = core + extra + [PR.by_name(n) for n in ("before2", "beforeafter", "afterfail", "siblingfail")]
         nseed = 10 if quick else 100
         return dict(
             progs=progs, props=["C06_Legal", "C06_CompletedIsFinal"],
@@ -215,7 +216,7 @@ def plan(pid: str, tier: str, seed: int) -> dict:
                + [(n, {"AnyOrder": "FALSE", "MaxWithhold": 2, "MaxCrashes": 1}, {}) for n in ("chain2", "diamond")],
         )
     if pid == "C10":
-        progs = core + ([] if quick else extra)
+        progs = core + [PR.by_name(n) for n in ("before2", "after1")] + ([] if quick else extra)
         return dict(
             progs=progs, props=["C10_SweepHarmless", "C10_NoExtraExec", "C02_StartOnce", "C01_SameOutcome"],
             jobs=lambda refs: [{"kind": "inject", "prog": p, "what": "sweep", "at": at, "times": t}
@@ -262,7 +263,7 @@ def plan(pid: str, tier: str, seed: int) -> dict:
             ref_as_trace=True,
         )
     if pid == "C17":
-        progs = core + ([] if quick else extra)
+        progs = core + [PR.by_name(n) for n in ("before1", "beforeafter")] + ([] if quick else extra)
         return dict(
             progs=progs, props=["C17_NoStartAfterCancel", "C17_CancelCompletes", "C05_QuietMeansDone"],
             jobs=lambda refs: [{"kind": "inject", "prog": p, "what": "cancel", "at": at}
